@@ -37,7 +37,7 @@ def generate(plan, build_history) -> None:
     for _ in range(r.choice([1, 1, 2, 3])):
         extra.append((r.randrange(max(1, n // 4), n + 1), {"op": "snap", "exp": r.random() < 0.4,
                                                            "down": r.choice([0, 0, 0, 30, 400, 4000, 90000]),
-                                                           "drain": r.random() < 0.9}))
+                                                           "drain": r.random() < 0.9, "stall": r.choice([0, 0, 0.3, 1.5, 4.0])}))
     for _ in range(r.choice([0, 0, 1, 2])):
         extra.append((r.randrange(n + 1), {"op": "adv", "s": r.choice([30, 200, 400, 800, 3700, 7300, 90000]), "how": "jump"}))
     for _ in range(r.choice([0, 1, 2])):  # a burst: several frames in one read (they get timestamps microseconds apart, or equal)
@@ -139,10 +139,15 @@ async def run(ctx) -> None:
         g2 = None
         try:
             g2 = Gateway(name, config=cfg, **S1[0])
+            if o.get("stall"):  # a slow host: restoring the cache takes about that many seconds
+                loop.iter_cost = float(o["stall"]) / max(60, 3 * len(S1[1]))
+                hub.count("slow_host_during_restore")
             await g2.start(cached_packets=dict(S1[1]))
+            loop.iter_cost = 0.0
             await asyncio.sleep(0.3)
             S2 = g2.get_state(include_expired=exp)
         except Exception as err:  # noqa
+            loop.iter_cost = 0.0
             ctx.violate("C16", "restart_raised", exc_sig(err), f"{where}: starting a fresh gateway from the snapshot raised "
                         f"{type(err).__name__}: {str(err)[:300]}")
             if g2 is not None:
